@@ -184,7 +184,13 @@ def _case(draw, tier):
         node, _n = H.avoid_known_shapes(draw(H.hint_nodes(draw(st.sampled_from([1, 2, 2, 3])))))
         v = draw(H.violating(node))
         if v is not None:
-            return {'family': 'valid', 'hint': node, 'value': v[0], 'conf': draw(st.sampled_from(CONFS))}
+            # a second hint for is_subhint(): derived from the first one (a container ABC / base class / tuple form away) or unrelated
+            from vlib.props import c19
+            if draw(st.integers(0, 3)):
+                other = H.merge_nested_annotated(draw(c19.widen(node)))
+            else:
+                other, _n = H.avoid_known_shapes(draw(H.hint_nodes(draw(st.sampled_from([0, 1, 2])))))
+            return {'family': 'valid', 'hint': node, 'value': v[0], 'conf': draw(st.sampled_from(CONFS)), 'hint2': other}
     if draw(st.integers(0, 150)) == 0:
         # deep-but-legal nesting (RecursionError must not leak); expensive, hence rare - depth 400 is exercised by the replay corpus
         prog = ['deep', draw(st.sampled_from(['list', 'tuple', 'dict', 'Sequence', 'Optional'])),
@@ -402,6 +408,15 @@ def run_valid(case):
                  ('TypeHint.die_if_unbearable', lambda o: TypeHint(hint).die_if_unbearable(o, conf=conf))]
         if dp is not None:
             calls += [('call-param', dp), ('call-return', dr)]
+        if case.get('hint2') is not None:
+            # the comparison API on the same hint: any answer or BeartypeDoorException is fine, anything else is a leak
+            try:
+                hint2 = H.build(case['hint2'])
+            except Exception:
+                hint2 = None
+            if hint2 is not None:
+                calls += [('is_subhint(h, h2)', lambda o: is_subhint(hint, hint2)), ('is_subhint(h2, h)', lambda o: is_subhint(hint2, hint)),
+                          ('TypeHint(h) == TypeHint(h2)', lambda o: TypeHint(hint) == TypeHint(hint2))]
         for ep, fn in calls:
             evals += 1
             try:
